@@ -372,6 +372,34 @@ def api(rng, case, idx):
                 if (0 < len(good) < len(outs)) or differ:
                     M.violate(['C14'], 'PARSE', 'C14:equivalent_concentration_lists_make_different_solutions',
                               {'calls': [(l_, repr(o)[:120]) for l_, o in outs]})
+        # ---- a concentration *unit* means what SI says where a concentration is reported: 'm' is moles per kilogram of
+        #      the whole content (every substance has a mass, enzymes too), percent is parts per hundred, 'M' per litre
+        from pv.gen import declared_enzyme
+        enzs = [s_ for s_ in subs if s_.is_enzyme()] or [declared_enzyme(pp.Substance, 'enzC', '10 U/mg')]
+        for trial in range(4):
+            mix = C('mix', initial_contents=[(liq, f'{rng.randint(5, 50)} mL'), (solids[0], f'{rng.randint(1, 900)} mg'),
+                                             (enzs[0], f'{rng.randint(1, 500)} U')])
+            for sub_ in (solids[0], liq, enzs[0]):
+                menu = ['M', 'm', 'mol/kg', 'mmol/g', 'mol/L', 'mmol/mL', 'g/L', 'mg/mL', 'g/g', 'mg/g', '%w/w', 'g/kg', 'mol/mol', 'mmol/mol']
+                if sub_.is_enzyme():
+                    menu = ['U/L', 'U/mL', 'U/g', 'U/mg', 'kU/kg', 'g/g', '%w/w', 'mg/g', 'g/L', 'U/mol', 'U/mmol']
+                for unit_ in rng.sample(menu, 5):
+                    try:
+                        one, num_, den_ = R.parse_concentration('1 ' + unit_)
+                    except R.Reject:
+                        continue
+                    exp_ = R.concentration(mix.contents, sub_, num_, den_) / one
+                    M.count('PARSE.api_meaning')
+                    M.bucket('C14/api/get_concentration_unit_meaning')
+                    try:
+                        got_ = mix.get_concentration(sub_, unit_)
+                    except Exception as e:   # noqa
+                        M.violate(['C14'], 'PARSE', f'C14:get_concentration_unit_refused:{type(e).__name__}', {'unit': unit_, 'substance': sub_.name})
+                        continue
+                    if abs(got_ - exp_) > 1e-6 * abs(exp_) + 4 * q:
+                        M.violate(['C14'], 'PARSE', f'C14:reported_concentration_ne_what_the_unit_means:{num_}/{den_}:{R.kind(sub_)}',
+                                  {'unit': unit_, 'substance': sub_.name, 'got': got_, 'expected': exp_,
+                                   'contents': {k_.name: v_ for k_, v_ in mix.contents.items()}})
         # ---- malformed strings at every entry point must raise
         src = C('s', initial_contents=[(liq, '2 L'), (solids[0], '10 g')])
         dst = C('d')
